@@ -29,7 +29,7 @@ def gen(rng, tier):
     for _ in range(rng.randint(2, 8)):
         k = rng.pick(weights)
         if k == "E":
-            r = ["E", rng.pick(nts), rng.pick(TERM)]
+            r = ["E", rng.pick(nts), rng.pick(TERM + ["epsilon"]) if rng.chance(0.3) else rng.pick(TERM)]
         elif k == "P":
             r = ["P", rng.pick(nts), rng.pick(nts), rng.pick(idx)]
         elif k == "C":
